@@ -210,26 +210,21 @@ static inline void vf_seq_%(G)s_pop_back(struct vf_seq_%(G)s* s) { __CPROVER_ass
 static inline void vf_seq_%(G)s_clear(struct vf_seq_%(G)s* s) { s->n = 0; }
 static inline struct vf_seq_%(G)s vf_seq_%(G)s_make(void) { struct vf_seq_%(G)s s; s.d = (%(T)s*)malloc(sizeof(%(T)s) * VF_CAP); __CPROVER_assume(s.d != 0); s.h = 0; s.n = 0; s.cap = VF_CAP; return s; }
 static inline void vf_seq_%(G)s_push_front(struct vf_seq_%(G)s* s, %(T)s v) { __CPROVER_assume(s->h > 0); s->h--; s->d[s->h] = v; s->n++; }
+/* find / erase: unrolled over the model capacity (precise: first occurrence; order-preserving shift) */
 static inline %(T)s* vf_seq_%(G)s_find_in(%(T)s* b, %(T)s* e, %(T)s v)
 {
   size_t cnt = (size_t)(e - b);
-  size_t i = 0;
-  while (i < cnt && !(%(EQ)s))
-    __CPROVER_assigns(i)
-    __CPROVER_loop_invariant(i <= cnt)
-    __CPROVER_decreases(cnt - i)
-  { i++; }
-  return b + i;
+  __CPROVER_assume(cnt <= VF_CAP);
+  size_t r = cnt;
+  VF_FOR_CAP(if (i < cnt && r == cnt && (%(EQ)s)) r = i;)
+  return b + r;
 }
 static inline %(T)s* vf_seq_%(G)s_erase(struct vf_seq_%(G)s* s, %(T)s* it)
 {
-  size_t i = (size_t)(it - (s->d + s->h));
-  __CPROVER_assert(i < s->n, "vf_seq erase in range");
-  for (size_t j = i; j + 1 < s->n; j++)
-    __CPROVER_assigns(j, __CPROVER_object_whole(s->d))
-    __CPROVER_loop_invariant(i <= j && j < s->n)
-    __CPROVER_decreases(s->n - j)
-  { s->d[s->h + j] = s->d[s->h + j + 1]; }
+  size_t idx = (size_t)(it - (s->d + s->h));
+  __CPROVER_assert(idx < s->n, "vf_seq erase in range");
+  __CPROVER_assume(s->n <= VF_CAP);
+  VF_FOR_CAP(if (idx <= i && i + 1 < s->n) s->d[s->h + i] = s->d[s->h + i + 1];)
   s->n--;
   return it;
 }
